@@ -45,6 +45,9 @@ pub struct InitSpec {
 #[derive(Clone)]
 pub struct TAux {
     pub model: Option<Model>,
+    /// non-zero: the history contains one refused call that changed nothing observable (hash of
+    /// the call; part of the state key)
+    pub tag: u64,
 }
 
 pub struct TreeSpace {
@@ -1339,11 +1342,12 @@ impl Space for TreeSpace {
 
     fn label(&self) -> String {
         format!(
-            "{} {} {:?} order={:?}",
+            "{} {} {:?} order={:?}{}",
             self.cfg.label(),
             self.alphabet.universe.name,
             self.domain,
-            self.order
+            self.order,
+            if self.alphabet.residue { " +states after a refused call" } else { "" }
         )
     }
 
@@ -1423,7 +1427,7 @@ impl Space for TreeSpace {
                     replay: self.replay_json(i, &[], None, extra),
                 });
             }
-            v.push((TAux { model }, key, vio));
+            v.push((TAux { model, tag: 0 }, key, vio));
         }
         v
     }
@@ -1436,7 +1440,8 @@ impl Space for TreeSpace {
         let need_raw = !self.is_plain();
         let before_raw = if need_raw { self.raw_snaps(b0) } else { vec![] };
         let held0 = held_desc(b0);
-        let k0 = self.key_of(&before, &before_raw, &held0);
+        let tag = st.aux.tag;
+        let k0 = self.key_of(&before, &before_raw, &held0) ^ (tag as u128);
         if k0 != st.key {
             eprintln!(
                 "MACHINERY: nondeterministic replay on {} (history {:?})",
@@ -1503,8 +1508,20 @@ impl Space for TreeSpace {
                     });
                 }
             }
-            let key = self.key_of(&after, &after_raw, &held_desc(&b));
+            let base_key = self.key_of(&after, &after_raw, &held_desc(&b));
+            let mut key = base_key ^ (tag as u128);
             let changed = key != st.key;
+            let mut next_tag = tag;
+            if self.alphabet.residue && tag == 0 && !changed && out.is_err() {
+                let mut h = std::collections::hash_map::DefaultHasher::new();
+                // (the call and the state it was refused in)
+                ("refused", op.show(), st.key).hash(&mut h);
+                next_tag = h.finish() | 1;
+                key = base_key ^ (next_tag as u128);
+                *e.counters
+                    .entry("residue:states-after-a-refused-call".into())
+                    .or_insert(0) += 1;
+            }
             // statistics
             *e.counters
                 .entry(format!("{}:{}", op.name(), out.class()))
@@ -1566,7 +1583,7 @@ impl Space for TreeSpace {
                 aux: if diverged {
                     None
                 } else {
-                    Some(TAux { model: next_model })
+                    Some(TAux { model: next_model, tag: next_tag })
                 },
             });
         }
